@@ -18,6 +18,8 @@ Import ListNotations.
 Local Open Scope nat_scope.
 
 Inductive eval_kind := EvalTangent | EvalIso.
+Inductive trim_kind := TrimLast1 | TrimClosing.
+Inductive orient_kind := OrientTables | OrientCentroid.
 
 Record ftab := {
   fname : string; fparent : string; fdim : nat; forder : nat; fnPe : nat; fnvert : nat;
